@@ -42,6 +42,11 @@ CHECKS = {
             "Every subset of the non-vanishing components of six systems (top of the lattice for the three large ones) is a TLC state with the exact decision; the implementation is run on a stratified sample of those states x value class x flags x environment (column order, case, int columns, extra columns, directory named like the system, relations-file path) and through the CLI.",
             "Trusted: value classes are consistent or off by 50 GPa (nothing near the tolerance); (under-determined, inconsistent, ignore_rank) not asserted; 'raises' = any exception.",
             "DESIGN.md section 4 C09"),
+    "C16": ("model_checking",
+            "TLC explores all 144x144 pairs of configuration trees with the merge laws as invariants and enumerates every single-field perturbation of the documented fields with its verdict (spec/Config.tla, C16.tla); full merge table and perturbation table replayed through update_config / apply_default_config / read_config (YAML and JSON)",
+            "The merge laws hold in every one of the 20736 states and the implementation reproduces the whole table (inputs unmodified, idempotent); validation is replayed for every documented field x value class on three valid bases in both file formats. Exhaustive on the finite tree domain, complete over single-field perturbations.",
+            "Trusted: value classes the documentation is silent on are not generated; 'rejected' = any exception; trees over 2 keys / 2 leaves / depth 2.",
+            "DESIGN.md section 4 C16"),
 }
 
 NOT_YET = {
